@@ -201,12 +201,17 @@ def short(h):
 PANICS_ARE_OWN = ("C01", "C19", "C20")
 
 
+_ORACLE_IDS = re.compile(r"((?:C\d\d\+)*C\d\d) ")
+
+
 def own_oracle(prop, desc):
-    return desc.startswith(prop + " ")
+    # oracle messages start with the id(s) of the property clause they decide: "C07 ..." or "C11+C12 ..."
+    m = _ORACLE_IDS.match(desc)
+    return bool(m) and prop in m.group(1).split("+")
 
 
 def is_other_oracle(desc):
-    return bool(re.match(r"C\d\d ", desc))
+    return bool(_ORACLE_IDS.match(desc))
 
 
 def classify(prop, job, r):
